@@ -416,7 +416,7 @@ def code_props(code):
              602: ['C06', 'C05'], 603: ['C06', 'C05'], 901: ['C09', 'C15'], 1104: ['C11'], 1105: ['C11'],
              1203: ['C12', 'C14'], 1204: ['C12', 'C14'],
              611: ['C06', 'C09'], 612: ['C06', 'C05'], 631: ['C06', 'C05', 'C13'], 632: ['C06', 'C05'], 633: ['C05', 'C06'],
-             811: ['C08', 'C09'], 812: ['C09', 'C10', 'C03'], 813: ['C08', 'C10'], 814: ['C08'], 815: ['C08', 'C09'], 816: ['C09', 'C03', 'C08'],
+             811: ['C08', 'C09'], 812: ['C09', 'C10', 'C03', 'C08'], 813: ['C08', 'C10'], 814: ['C08'], 815: ['C08', 'C09'], 816: ['C09', 'C03', 'C08'],
              821: ['C09'], 822: ['C09', 'C07']}
     if code in table:
         return table[code]
@@ -435,6 +435,7 @@ CODE_TEXT = {
     701: 'caller observed success after cancel without handler OK', 703: 'caller operation did not return when its context was cancelled',
     704: 'handler operation still pending after the cancel notice was delivered', 802: 'handler invoked twice for one RPC', 803: 'wrong handler invoked',
     901: 'panic', 1001: 'handler started for an RPC begun after shutdown', 1002: 'RPC begun after shutdown was not refused with Unavailable',
+    1502: 'two goroutines were inside Send / CloseSend of the carrier stream at the same time (the thread-safe wrapper was bypassed)',
     501: 'flow-controlled sender left parked although its whole window had been credited back (lost wake-up)', 902: 'live heap grew by more than 200 MiB under a hostile peer announcing huge sizes (MiB in a)',
     1003: 'tunnel ended after graceful shutdown was initiated', 1004: 'Stop returned before every Serve call had returned',
     1005: 'GracefulStop did not return although the RPCs in flight had finished', 1103: 'settings frame present/absent contrary to advertisement',
